@@ -202,6 +202,9 @@ def run(rep, tier, seed):
             rel = lambda a, b: min(abs(a - b) % 360, 360 - abs(a - b) % 360)  # noqa: E731
             if any(rel(x, y) == c["a"] for x in hs for y in hs):
                 m = None       # an angle threshold is hit exactly: the model's exact answer is one of two allowed ones
+        if m is not None and c["op"] == "down" and "olo" in c and m.get("out") == "ok" and o.get("out") == "ok" \
+                and len(o.get("ids", [])) == len(m["ids"]) and all(lo <= x <= hi for lo, x, hi in zip(c["olo"]["ids"], o["ids"], m["ids"])):
+            m = None           # inside M's named floating-point deviation of np.linspace (MDownLo .. MDown)
         if m is not None:
             for key in ("ids", "parts", "out"):
                 if key in m and m.get(key) != o.get(key) and c["op"] != "merge":
